@@ -166,6 +166,64 @@ def cases_for(tier):
                     if w2 != '%s' and w1 not in ('%s',) and ',' in inner and not inner.startswith(('(', '[')):
                         inner = '(' + inner + ')'
                     add('tgt:%d' % k, form % (w1 % inner), 'exec', 'hostile-target')
+    # scope shapes: three nested scopes x what each does with the ONE name x before and after the scope nested in it (bind, read, declare global /
+    # nonlocal, delete, import, augment, loop target, a nested def/class/lambda/comprehension of that name, handler name, parameter).  Valid or
+    # not, each must give a code object or a SyntaxError: the symbol table and the closure hand-off of the compiler see every combination.
+    acts = ['', 'x = 1', 'x', 'global x', 'nonlocal x', 'del x', 'import x', 'x += 1', 'for x in z: pass', 'def x(): pass', 'class x: pass', 'with z as x: pass',
+            'x = lambda: x', '[x for x in z]', 'try:\n    pass\nexcept E as x:\n    pass', 'x = [x for y in z]', 'print(x)']
+    inner_kinds = [('def', 'def h(%s):\n    %s\n'), ('class', 'class H:\n    %s\n'), ('lambda', 'h = lambda %s: %s\n'), ('listcomp', 'h = [%s for y in z]\n'), ('genexp', 'h = (%s for x in z)\n'),
+                   ('dictcomp', 'h = {y: %s for y in z if x}\n'), ('method', 'def h(self, %s):\n    %s\n')]
+    inner_stmts = ['x', 'return x', 'x = 2', 'global x', 'nonlocal x', 'del x', 'x += 1', 'return super().h()', 'return __class__', 'return [x for y in z]', 'return lambda: x', 'yield x', 'nonlocal x\n    x = 3']
+    inner_exprs = ['x', '(x, y)', 'lambda: x', '[x for w in z]', 'x if x else 0', 'super()', '__class__', '(yield x)']
+    params = ['', 'x', 'a, x=1', '*x', '**x', 'a, *, x']
+
+    def ind(text, n=1):
+        return ''.join('    ' * n + l + '\n' for l in text.split('\n') if l)
+
+    def scope_text(kinds, pre, post, inner):
+        ik, itmpl, ibody, iparam = inner
+        if ik in ('def', 'method'):
+            it = itmpl % (iparam, ibody)
+        elif ik == 'class':
+            it = itmpl % ibody.replace('return ', 'w = ').replace('yield x', 'w = x')
+        elif ik == 'lambda':
+            it = itmpl % (iparam, ibody)
+        else:
+            it = itmpl % ibody
+        body = it
+        for lvl in (1, 0):
+            k = kinds[lvl]
+            head = ('def f%d(%s):\n' % (lvl, params[(len(pre[lvl]) + lvl) % len(params)] if lvl == 1 else '')) if k == 'def' else 'class K%d:\n' % lvl
+            inside = ind(pre[lvl]) + ind(body.rstrip('\n')) + ind(post[lvl])
+            body = head + (inside or '    pass\n')
+        return body
+    combos = []
+    for k0 in ('def', 'class'):
+        for k1 in ('def', 'class'):
+            for ik, itmpl in inner_kinds:
+                bodies = inner_stmts if ik in ('def', 'class', 'method') else inner_exprs
+                for ib in bodies:
+                    combos.append((k0, k1, ik, itmpl, ib))
+    nscope = 12000 if tier == 'quick' else 400000
+    full = len(combos) * len(acts) ** 4 * len(params)
+    for i in range(nscope):
+        k0, k1, ik, itmpl, ib = combos[i % len(combos)] if tier == 'quick' else r.choice(combos)
+        pre = [r.choice(acts), r.choice(acts)]
+        post = [r.choice(acts) if r.random() < 0.5 else '', r.choice(acts) if r.random() < 0.5 else '']
+        text = scope_text((k0, k1), pre, post, (ik, itmpl, ib, r.choice(params)))
+        if r.random() < 0.3:
+            text = r.choice(['x = 0\n', 'global x\n', 'import x\n', 'def x(): pass\n']) + text
+        add('scope:%d' % i, text, 'exec', 'scope-nest')
+    # the shapes the property's anchors name explicitly, always present
+    for j, text in enumerate(['def f():\n    x = 1\n    class A:\n        x = 2\n        def m(self):\n            return x\n',
+                              'def f(x):\n    class A:\n        x = x\n        g = lambda: x\n',
+                              'def f():\n    x = 1\n    class A:\n        x = [x for y in z]\n        h = [x for y in z]\n',
+                              'def f():\n    x = 1\n    class A:\n        def x(self):\n            return x\n',
+                              'def f():\n    x = 1\n    class A:\n        x = 2\n        def m(self):\n            return super().m() + x\n',
+                              'class A:\n    x = 1\n    class B:\n        x = 2\n        def m(self):\n            return x\n',
+                              'def f():\n    x = 1\n    class A:\n        nonlocal x\n        x = 2\n        def m(self):\n            return x\n']):
+        for m in ('exec', 'single'):
+            add('scopefix:%d:%s' % (j, m), text + ('\n' if m == 'single' else ''), m, 'scope-nest')
     for name, text in size_stress(tier):
         add('size:' + name, text, 'exec', 'size:' + re.sub(r'-\d+$', '', name), nodump=len(text) > 200000 or 'lambda' in name or 'nest-def' in name or 'nest-class' in name)
     return C
@@ -248,6 +306,6 @@ def run(tier, rep):
     slow = sorted(((g.get('max_us', 0), k) for k, g in res.items() if isinstance(g, dict)), reverse=True)[:5]
     rep.samples = [{'id': c['id'], 'mode': c['mode'], 'text': binascii.unhexlify(c['src_hex'])[:120].decode('utf-8', 'replace'), 'result': (res.get(c['id']) or {}).get('err', {'accepted': True})} for c in (C[5000:5003] + C[-200:-198])]
     rep.rule = ('exhaustive sequences of length <= %d over a %d-fragment alphabet (keywords, operators, literals incl. malformed, indentation, control bytes, non-ASCII, BOM) in all three modes, seeded random sequences up to 200 tokens with invalid UTF-8 injected, '
-                'byte/token mutations of repository .py files and generated programs, and size stress (>64KiB jump bodies, >65536 consts/names, nesting up to 10^4..10^5); non-trivial = distinct (feature, outcome type, message prefix or code hash)' % (2 if tier == 'quick' else 3, len(FRAGS)))
+                'byte/token mutations of repository .py files and generated programs, hostile assignment targets (statement form x wrappers x leaf), nested scope shapes (3 nested def/class/lambda/comprehension scopes x what each does with one name before/after the nested scope), and size stress (>64KiB jump bodies, >65536 consts/names, nesting up to 10^4..10^5); non-trivial = distinct (feature, outcome type, message prefix or code hash)' % (2 if tier == 'quick' else 3, len(FRAGS)))
     rep.extra = dict(counts, slowest_us=slow, timeouts_first_pass=len(timeouts), cases=len(C))
     rep.assumptions = ['watchdog 20 s per compile (120 s for size stress); a timeout counts only if reproduced twice in a fresh idle process', 'accepted inputs are additionally checked by the C12 verifier (static part)']
